@@ -1,2 +1,378 @@
--- C12 property theorems (to be written)
-import Nq.Basic
+/-
+  C12 — Mailbox deliveries are complete or absent: maildir atomic, mbox rolled back.
+
+  Models (`Nq.LocalDeliver`): `Md.accept` — acceptor of the system-call traces of `maildir()` and
+  `maildir_child()` with the abstract file `Md.FS` and the crash relation `Md.CrashOf`; `Mb.accept` /
+  `Mb.sysStep` — acceptor of `mailfile()` and the system of any number of concurrent deliveries to one
+  mbox file with `flock` as a mutex; `mboxEntry`, `gfrom`, `myctime`, `ufline` and (from `Nq.Local`)
+  `rpline`, `dtline`.  Specification (`Nq.Spec.Mbox`): the reader of mbox(5), `mboxRead`.
+
+  Tie: every trace of the real qmail-local recorded under qsim (all inputs × single faults × schedules)
+  is replayed through the acceptors by `drv_c12`; gfrom()/myctime() are compared on exhaustive / dense
+  inputs; the exit-status `switch` of `maildir()` is regenerated from the source (`Gen.LocalExit`).
+
+  The maildir theorems quantify over every accepted trace — every message, chunking, short write,
+  EINTR, failing call, alarm — and, since every prefix of an accepted trace is accepted
+  (`C12_maildir_prefix_closed`), over every instant at which the process or machine may stop;
+  `CrashOf` lets a file not fsynced since its last change come back with arbitrary content.
+-/
+import Nq.Lemmas.LocalDeliverMd
+import Nq.Lemmas.LocalDeliverMb
+import Nq.Lemmas.LocalDeliverMbox
+
+namespace Nq.Props.C12
+open Nq Nq.LocalDeliver Nq.Mbox
+
+/-! ## Maildir -/
+section maildir
+open Nq.LocalDeliver.Md Nq.Lemmas.LD.Md
+
+/-- the trace is a run of one maildir delivery from the start -/
+def MdRun (p : Md.Params) (evs : List Md.Ev) (s : Md.St) : Prop := Md.acceptAll p {} evs = some s
+
+/-- Crash points are covered: each prefix of a run is a run. -/
+theorem C12_maildir_prefix_closed (p : Md.Params) (evs : List Md.Ev) (s : Md.St) (k : Nat) (h : MdRun p evs s) :
+    ∃ s', MdRun p (evs.take k) s' := accept_prefix p evs k {} s h
+
+/-- **Atomic at every instant, under every crash.**  If after any prefix of a delivery and any
+crash resolution the message is visible in new/, then the file holds exactly the Return-Path line,
+the Delivered-To line and the message. -/
+theorem C12_maildir_atomic (p : Md.Params) (evs : List Md.Ev) (s : Md.St) (h : MdRun p evs s) (fs' : Md.FS)
+    (hc : Md.CrashOf (Md.applyAll {} evs) fs') (hv : fs'.newName = true) : fs'.cur = p.content := by
+  have hinv := run_inv p evs {} s {} (inv_init p) h
+  obtain ⟨_, c2, c3⟩ := hc
+  have hcomp := hinv.1 (by rw [← c2]; exact hv)
+  rw [c3 hcomp.2]; exact hcomp.1
+
+/-- **Success means delivered, durably**: when qmail-local reports success the message is visible in
+new/, complete, and stays so across any crash. -/
+theorem C12_maildir_success (p : Md.Params) (evs : List Md.Ev) (s : Md.St) (h : MdRun p evs s) (hx : s.pc = .done 0)
+    (fs' : Md.FS) (hc : Md.CrashOf (Md.applyAll {} evs) fs') : fs'.newName = true ∧ fs'.cur = p.content := by
+  have hinv := run_inv p evs {} s {} (inv_init p) h
+  have hn : (Md.applyAll {} evs).newName = true := by
+    have := hinv.2; simp [PcInv, hx] at this; exact this
+  have hv : fs'.newName = true := by rw [hc.2.1]; exact hn
+  exact ⟨hv, C12_maildir_atomic p evs s h fs' hc hv⟩
+
+/-- **Failure means absent**: when qmail-local reports a failure nothing is visible in new/ — unless a
+signal (the 24-hour alarm, a kill) hit the child after its `link`, in which case the complete
+message is there (`C12_maildir_atomic`) and will be delivered a second time, never lost. -/
+theorem C12_maildir_failure (p : Md.Params) (evs : List Md.Ev) (s : Md.St) (h : MdRun p evs s) (c : Nat)
+    (hx : s.pc = .done c) (hc0 : c ≠ 0) (hsig : s.interrupted = false) (fs' : Md.FS)
+    (hc : Md.CrashOf (Md.applyAll {} evs) fs') : fs'.newName = false := by
+  have hinv := run_inv p evs {} s {} (inv_init p) h
+  have := hinv.2; simp [PcInv, hx] at this
+  have h2 := this.2.1 hc0
+  rw [hc.2.1]
+  cases hn : (Md.applyAll {} evs).newName with
+  | false => rfl
+  | true => have := h2 hn; rw [hsig] at this; cases this
+
+/-- **Failures of a delivery are temporary**: once `maildir()` has forked, qmail-local exits 0 or 111. -/
+theorem C12_maildir_exit_codes (p : Md.Params) (evs : List Md.Ev) (s : Md.St) (h : MdRun p evs s) (c : Nat)
+    (hx : s.pc = .done c) (hf : s.forked = true) : c = 0 ∨ c = 111 := by
+  have hinv := run_inv p evs {} s {} (inv_init p) h
+  have := hinv.2; simp [PcInv, hx] at this
+  exact this.2.2 hf
+
+/-- **The exit-status switch of `maildir()`** (regenerated from the source): only child status 0 is
+reported as success. -/
+theorem C12_maildir_exit_map (c : Nat) : (parentCode c = 0 ↔ c = 0) ∧ (parentCode c = 0 ∨ parentCode c = 111) :=
+  ⟨parentCode_zero c, parentCode_cases c⟩
+
+/-- **The protocol order**: the first event of a delivery that makes new/ non-empty is a successful
+`link`, and it is accepted only at the control point reached through open_excl, complete writes,
+fsync and close. -/
+theorem C12_maildir_link_only (p : Md.Params) (s s' : Md.St) (e : Md.Ev) (fs : Md.FS) (h : Md.accept p s e = some s')
+    (h0 : fs.newName = false) (h1 : (Md.apply fs e).newName = true) : e = .link true ∧ s.pc = .linking := by
+  cases e with
+  | link ok =>
+    cases ok with
+    | true =>
+      simp only [Md.accept] at h
+      split at h
+      · rename_i hp; exact ⟨rfl, hp⟩
+      · cases h
+    | false => simp [Md.apply, h0] at h1
+  | openExcl ok ex => cases ok <;> simp [Md.apply, h0] at h1
+  | fsync ok => cases ok <;> simp [Md.apply, h0] at h1
+  | unlinkTmp ok => cases ok <;> simp [Md.apply, h0] at h1
+  | write bs => simp [Md.apply, h0] at h1
+  | _ => simp [Md.apply, h0] at h1
+
+/-- **Names**: the name `time.pid.host` used under tmp/ and new/ determines the second and the
+process id of the delivering child.  Two deliveries on one host that use the same name therefore
+are the same process in the same second — and one child performs one delivery; a name left over
+from an earlier life of the same pid is detected by `open_excl` (retry, then failure) and by `link`
+(failure): `Md.accept` has no path on which an existing name is taken over. -/
+theorem C12_maildir_names (t p t' p' : Nat) (h h' : Bytes) (he : maildirName t p h = maildirName t' p' h') :
+    t = t' ∧ p = p' := Nq.Lemmas.LD.Rt.maildirName_inj t p t' p' h h' he
+
+end maildir
+
+/-! ## Mbox: the entry and the reader -/
+section roundtrip
+open Nq.Lemmas.LD.Rt
+
+/-- exactly one LF, at the end -/
+def OneLine (l : Bytes) : Prop := ∃ pre, l = pre ++ [LF] ∧ LF ∉ pre
+
+/-- **Header lines**: the Return-Path, Delivered-To and From_ lines built by `main` are single lines
+whatever bytes the envelope sender, the recipient and the host contain (newlines in them become
+'_' resp. '-'); the From_ line is a From_ line, the other two are neither From_ nor >From_ lines; and
+a reader gets the envelope sender back from the From_ line with blanks, tabs and newlines replaced
+by '-' (MAILER-DAEMON for the empty sender), as mbox(5) says. -/
+theorem C12_headers (sender loc host : Bytes) (t : Nat) :
+    OneLine (Local.rpline sender) ∧ OneLine (Local.dtline loc host) ∧ OneLine (ufline sender t) ∧
+    isFromLine (ufline sender t) = true ∧ gfrom (Local.rpline sender) = false ∧ gfrom (Local.dtline loc host) = false ∧
+    envSender (ufline sender t) = ufSender sender ∧ (∀ c ∈ ufSender sender, c ≠ SP ∧ c ≠ TAB ∧ c ≠ LF) :=
+  ⟨rpline_single sender, dtline_single loc host, ufline_single sender t, ufline_from sender t, rpline_gfrom sender,
+   dtline_gfrom loc host, ufline_sender sender t, ufSender_clean sender⟩
+
+/-- **gfrom.c is the documented test**: `>` is prepended exactly to From_, >From_, >>From_, … lines. -/
+theorem C12_gfrom (l : Bytes) : gfrom l = (isFromLine l || isQuoted l) := gfrom_spec l
+
+/-- **Round trip** for every message and every envelope: appending the entry to a file that ends at
+a line boundary leaves such a file, and the documented reader finds the old messages unchanged
+followed by exactly one new message: the From_ line, and the Return-Path line, the Delivered-To line
+and the message — byte for byte, for NUL and 8-bit bytes, From_/>From_ lines and empty messages; the
+only normalisation is the completion of a partial last line that mbox(5) prescribes. -/
+theorem C12_mbox_roundtrip (box msg sender loc host : Bytes) (t : Nat) (hbox : AtBoundary box) :
+    let entry := mboxEntry (ufline sender t) (Local.rpline sender) (Local.dtline loc host) msg
+    AtBoundary (box ++ entry) ∧
+    mboxRead (box ++ entry) = mboxRead box ++
+      [(ufline sender t, completeLastLine (Local.rpline sender ++ Local.dtline loc host ++ msg))] :=
+  roundtrip box _ _ _ msg hbox (ufline_single sender t) (ufline_from sender t) (rpline_single sender) (rpline_gfrom sender)
+    (dtline_single loc host) (dtline_gfrom loc host)
+
+/-- one delivery: envelope sender, time, recipient local part and host, message -/
+structure Delivery where
+  sender : Bytes
+  t : Nat
+  loc : Bytes
+  host : Bytes
+  msg : Bytes
+
+/-- what `mailfile()` appends for it -/
+def entryOf (d : Delivery) : Bytes := mboxEntry (ufline d.sender d.t) (Local.rpline d.sender) (Local.dtline d.loc d.host) d.msg
+
+/-- what the reader must return for it -/
+def readOf (d : Delivery) : Bytes × Bytes :=
+  (ufline d.sender d.t, completeLastLine (Local.rpline d.sender ++ Local.dtline d.loc d.host ++ d.msg))
+
+/-- **Round trip for any sequence of deliveries** (with `C12_mbox_final`: for the result of any
+number of concurrent deliveries): the reader returns the old messages and then exactly the
+delivered messages, in the order of the entries. -/
+theorem C12_mbox_roundtrip_many (ds : List Delivery) : ∀ (box : Bytes), AtBoundary box →
+    AtBoundary (box ++ (ds.map entryOf).flatten) ∧
+    mboxRead (box ++ (ds.map entryOf).flatten) = mboxRead box ++ ds.map readOf := by
+  induction ds with
+  | nil => intro box hb; simpa using hb
+  | cons d ds ih =>
+    intro box hb
+    have h1 := C12_mbox_roundtrip box d.msg d.sender d.loc d.host d.t hb
+    simp only at h1
+    obtain ⟨hb1, hr1⟩ := h1
+    have h2 := ih (box ++ entryOf d) hb1
+    simp only [List.map_cons, List.flatten_cons, ← List.append_assoc]
+    refine ⟨h2.1, ?_⟩
+    rw [h2.2]
+    unfold entryOf readOf
+    rw [hr1]
+    simp [List.append_assoc]
+
+/-- a message that ends with a newline (or is empty) comes back unchanged -/
+theorem C12_mbox_roundtrip_exact (m : Bytes) (h : m = [] ∨ m.getLast? = some LF) : completeLastLine m = m := by
+  simp [completeLastLine, h]
+
+end roundtrip
+
+/-! ## Mbox: locking, roll-back, serialisation -/
+section mbox
+open Nq.LocalDeliver.Mb Nq.Lemmas.LD.Mb
+
+/-- a run of any number of deliveries (process `i` appends `entry i`) to a file that holds `box` -/
+def MbRun (entry : Nat → Bytes) (box : Bytes) (tr : List (Nat × Mb.Ev)) (y : Mb.Sys) : Prop :=
+  Mb.sysRun entry { file := box } tr = some y
+
+/-- no `flock` and no `ftruncate` fails in the run (if `lock_ex` fails the program proceeds unlocked) -/
+def Benign (tr : List (Nat × Mb.Ev)) : Prop := ∀ x ∈ tr, Mb.benign x.2 = true
+
+/-- **Deliveries never interleave.**  At every instant of every interleaving of any number of
+deliveries the file is the old content, followed by the complete entries of the deliveries that have
+finished their append, in the order in which they held the lock, followed by what the current lock
+holder has appended so far; nobody else is inside the critical section. -/
+theorem C12_mbox_serial (entry : Nat → Bytes) (box : Bytes) (tr : List (Nat × Mb.Ev)) (y : Mb.Sys)
+    (h : MbRun entry box tr y) (hb : Benign tr) :
+    y.order.Nodup ∧ (∀ j, j ∈ y.order ↔ Committed (y.st j).pc = true) ∧
+    (∀ j, InCrit (y.st j).pc = true → y.holder = some j) ∧
+    (y.holder = none → y.file = box ++ (y.order.map entry).flatten) ∧
+    (∀ i, y.holder = some i → ∃ part, y.file = box ++ (y.order.map entry).flatten ++ part) := by
+  have hinv := run_inv entry box tr _ y (inv_init entry box) hb h
+  refine ⟨hinv.nodup, hinv.ord, hinv.excl, hinv.free, ?_⟩
+  intro i hi
+  have := hinv.held i hi
+  unfold HolderInv at this
+  split at this
+  · exact ⟨_, this.1⟩
+  · exact ⟨_, this.1⟩
+  · exact ⟨_, this.1⟩
+  · exact ⟨[], by simpa [base] using this⟩
+
+/-- **Complete or absent, in every interleaving.**  When every delivery has exited, the file is the
+old content followed by the entries of exactly the deliveries that reported success (exit 0), each
+complete, in lock order; a delivery that reported failure left nothing. -/
+theorem C12_mbox_final (entry : Nat → Bytes) (box : Bytes) (tr : List (Nat × Mb.Ev)) (y : Mb.Sys)
+    (h : MbRun entry box tr y) (hb : Benign tr) (hdone : ∀ j, ∃ c, (y.st j).pc = .done c ∨ (y.st j).pc = .start) :
+    y.file = box ++ (y.order.map entry).flatten ∧ y.order.Nodup ∧ (∀ j, j ∈ y.order ↔ (y.st j).pc = .done 0) := by
+  have hinv := run_inv entry box tr _ y (inv_init entry box) hb h
+  have hfree : y.holder = none := by
+    cases hh : y.holder with
+    | none => rfl
+    | some i =>
+      exfalso
+      have := holder_active entry box tr y h i hh
+      obtain ⟨c, hc | hc⟩ := hdone i <;> simp [hc, Idle] at this
+  refine ⟨hinv.free hfree, hinv.nodup, ?_⟩
+  intro j
+  rw [hinv.ord j]
+  obtain ⟨c, hc | hc⟩ := hdone j
+  · rw [hc]
+    cases c with
+    | zero => simp [Committed]
+    | succ k => simp [Committed]
+  · simp [hc, Committed]
+
+/-- **Roll-back**: a single delivery that fails (read error, write error, failing fsync — at any
+point of the copy) while holding the lock leaves the file exactly as it was and reports the
+temporary failure 111. -/
+theorem C12_mbox_rollback (entry : Nat → Bytes) (box : Bytes) (tr : List (Nat × Mb.Ev)) (y : Mb.Sys)
+    (h : MbRun entry box tr y) (hb : Benign tr) (honly : ∀ x ∈ tr, x.1 = 0) (c : Nat)
+    (hx : (y.st 0).pc = .done c) (hc : c ≠ 0) : y.file = box := by
+  have hinv := run_inv entry box tr _ y (inv_init entry box) hb h
+  have hord : y.order = [] := by
+    cases ho : y.order with
+    | nil => rfl
+    | cons j js =>
+      have hj := (hinv.ord j).1 (by simp [ho])
+      have hst := only_zero entry box tr y h honly j
+      by_cases hj0 : j = 0
+      · subst hj0; rw [hx] at hj
+        cases c with
+        | zero => exact absurd rfl hc
+        | succ k => simp [Committed] at hj
+      · rw [hst hj0] at hj; simp [Committed] at hj
+  have hfree : y.holder = none := by
+    cases hh : y.holder with
+    | none => rfl
+    | some i =>
+      exfalso
+      have := holder_active entry box tr y h i hh
+      by_cases hi0 : i = 0
+      · subst hi0; simp [hx, Idle] at this
+      · rw [only_zero entry box tr y h honly i hi0] at this; simp [Idle] at this
+  have := hinv.free hfree
+  simpa [hord, base] using this
+
+/-- **Success appends exactly the entry** (single delivery). -/
+theorem C12_mbox_append (entry : Nat → Bytes) (box : Bytes) (tr : List (Nat × Mb.Ev)) (y : Mb.Sys)
+    (h : MbRun entry box tr y) (hb : Benign tr) (honly : ∀ x ∈ tr, x.1 = 0)
+    (hx : (y.st 0).pc = .done 0) : y.file = box ++ entry 0 := by
+  have hinv := run_inv entry box tr _ y (inv_init entry box) hb h
+  have hmem : ∀ j, j ∈ y.order ↔ j = 0 := by
+    intro j
+    rw [hinv.ord j]
+    by_cases hj0 : j = 0
+    · subst hj0; simp [hx, Committed]
+    · rw [only_zero entry box tr y h honly j hj0]; simp [Committed, hj0]
+  have hord : y.order = [0] := by
+    have hnd := hinv.nodup
+    cases ho : y.order with
+    | nil => have := (hmem 0).2 rfl; simp [ho] at this
+    | cons a as =>
+      have ha : a = 0 := (hmem a).1 (by simp [ho])
+      subst ha
+      cases has : as with
+      | nil => rfl
+      | cons b bs =>
+        have hb0 : b = 0 := (hmem b).1 (by simp [ho, has])
+        subst hb0
+        rw [ho, has] at hnd; simp at hnd
+  have hfree : y.holder = none := by
+    cases hh : y.holder with
+    | none => rfl
+    | some i =>
+      exfalso
+      have := holder_active entry box tr y h i hh
+      by_cases hi0 : i = 0
+      · subst hi0; simp [hx, Idle] at this
+      · rw [only_zero entry box tr y h honly i hi0] at this; simp [Idle] at this
+  have := hinv.free hfree
+  simpa [hord, base] using this
+
+/-- **The unlocked case, stated, not hidden**: `ftruncate` is issued only by a delivery that holds
+the lock, and always to the length the file had when the lock was taken; a delivery whose `lock_ex`
+failed never truncates (and then neither roll-back nor serialisation is claimed). -/
+theorem C12_mbox_truncate_only_locked (entry : Bytes) (s s' : Mb.St) (len : Nat) (ok : Bool)
+    (h : Mb.accept entry s (.ftrunc len ok) = some s') : s.pc = .rollback ∧ len = s.pos := by
+  simp only [Mb.accept] at h
+  split at h
+  · rename_i hp; exact hp
+  · cases h
+
+theorem C12_mbox_rollback_needs_lock (s : Mb.St) (h : s.locked = false) : (Mb.failFrom s).pc = .closeErr := by
+  simp [Mb.failFrom, h]
+
+end mbox
+
+/-! ## Non-vacuity -/
+
+/-- a complete maildir delivery: name taken at the first try, two writes, one EINTR -/
+example : (Md.acceptAll { content := [82, 10, 68, 10, 104, 105] } {}
+    [.fork, .alarm 86400, .openExcl false true, .sleep 2, .alarm 86400, .openExcl true false, .read 2, .read 0,
+     .write [82, 10, 68], .writeErr true, .write [10, 104, 105], .fsync true, .close true, .link true, .unlinkTmp true,
+     .childExit 0, .parentExit 0]).map (·.pc) = some (.done 0) := by decide
+
+/-- a failing fsync: tmp file removed, child exits 1, parent reports 111 -/
+example : (Md.acceptAll { content := [82, 10] } {}
+    [.fork, .alarm 86400, .openExcl true false, .read 0, .write [82, 10], .fsync false, .unlinkTmp true,
+     .childExit 1, .parentExit 111]).map (·.pc) = some (.done 111) := by decide
+
+/-- linking before the fsync is not a run of this program -/
+example : Md.acceptAll { content := [82, 10] } {}
+    [.fork, .alarm 86400, .openExcl true false, .read 0, .write [82, 10], .link true] = none := by decide
+
+/-- two interleaved mbox deliveries: the second blocks until the first has closed -/
+example : (Mb.sysRun (fun i => if i = 0 then [70, 10, 10] else [71, 10, 10]) { file := [] }
+    [(0, .openAppend true), (1, .openAppend true), (0, .alarm 30), (1, .alarm 30), (0, .flock true 0), (0, .alarm 0),
+     (0, .read 0), (0, .write [70, 10]), (0, .write [10]), (0, .fsync true), (0, .close), (1, .flock true 3), (0, .exit 0),
+     (1, .alarm 0), (1, .read 0), (1, .write [71, 10, 10]), (1, .fsync true), (1, .close), (1, .exit 0)]).map (·.file)
+    = some [70, 10, 10, 71, 10, 10] := by decide
+
+/-- taking the lock while another delivery holds it is not possible -/
+example : (Mb.sysRun (fun _ => [70, 10, 10]) { file := [] }
+    [(0, .openAppend true), (1, .openAppend true), (0, .alarm 30), (1, .alarm 30), (0, .flock true 0), (1, .flock true 0)]).isNone = true := by
+  decide
+
+/-- a write error under the lock: truncation to the old length, exit 111 -/
+example : (Mb.sysRun (fun _ => [70, 10, 10]) { file := [1, 10] }
+    [(0, .openAppend true), (0, .alarm 30), (0, .flock true 2), (0, .alarm 0), (0, .read 0), (0, .write [70]), (0, .writeErr false),
+     (0, .ftrunc 2 true), (0, .close), (0, .exit 111)]).map (·.file) = some [1, 10] := by decide
+
+/-- the reader on a concrete entry: "From x\n" in the body is quoted and unquoted again -/
+example : mboxRead (mboxEntry [70, 114, 111, 109, 32, 97, 32, 100, 10] [82, 58, 10] [68, 58, 10] [70, 114, 111, 109, 32, 120, 10, 122])
+    = [([70, 114, 111, 109, 32, 97, 32, 100, 10], [82, 58, 10, 68, 58, 10, 70, 114, 111, 109, 32, 120, 10, 122, 10])] := by decide
+
+/-- the excluded input of `C12_mbox_roundtrip` (old file ends inside a line, e.g. after a machine
+crash in the middle of an earlier mbox delivery — the weakness maildir(5) describes): the new From_
+line is glued to the partial line, so the reader attributes the new entry to the old message -/
+example : mboxRead ([70, 114, 111, 109, 32, 97, 10, 120] ++ mboxEntry [70, 114, 111, 109, 32, 98, 10] [82, 10] [68, 10] [109, 10])
+    = [([70, 114, 111, 109, 32, 97, 10], [120, 70, 114, 111, 109, 32, 98, 10, 82, 10, 68, 10, 109, 10])] := by decide
+
+example : ¬ AtBoundary [70, 114, 111, 109, 32, 97, 10, 120] := by decide
+
+/-- names: 120.7.mx -/
+example : maildirName 120 7 [109, 120, 0, 33] = [49, 50, 48, 46, 55, 46, 109, 120] := by
+  simp [maildirName, fmtDec, dig, digits, DOT]
+
+end Nq.Props.C12
